@@ -33,6 +33,11 @@ impl InputPlugin for InjectInputPlugin {
                 )));
             }
         }
+        if !input.is_object() {
+            return Err(InputPluginError::UnexpectedQueryStructure(String::from(
+                "query is not a JSON object",
+            )));
+        }
         input[self.key.clone()] = self.value.clone();
         Ok(())
     }
